@@ -107,6 +107,15 @@ func runGates(tier string, seed int64, phase string) {
 			}
 		}
 	}
+	// working sources whose bytes all look alike (a zeroed device, a test fixture): still working
+	for _, pat := range []string{"zero", "ones", "zero"} {
+		maybeCutNow()
+		ps := &scriptReader{fill: newRng(seed, "gates/const"), after: "data", pattern: pat}
+		swapSource(ps, "script")
+		for _, n := range []int64{12, 15, 18, 21, 24} {
+			recNewMnemonic(n, langs[0], Event{"fam": "constant"})
+		}
+	}
 	runSourcePanics(seed, langs[0])
 	// the same accepted counts in a process that is no longer young, after an idle pause
 	ageAtLeast(map[string]time.Duration{"quick": 6 * time.Second, "thorough": 70 * time.Second}[tier])
